@@ -30,6 +30,7 @@ def judgeLine (line : String) : String :=
          else if op == "cli" then judgeCli
          else if op == "readlt" then judgeReadLT
          else if op == "oapicsv" then judgeOapiCsv
+         else if op == "readnames" then judgeReadNames
          else if op == "pipeline" then judgePipeline
          else if op == "conc" then judgeConc
          else if op == "state" then judgeState
